@@ -301,6 +301,8 @@ func c06Extra(c *Ctx) {
 			}
 		}
 	}
+	// cycles that run through slices / maps of STRUCT or ARRAY elements only (no pointer, no interface on the way)
+	c06TypedCycles(c)
 	// special-cased value types at their extremes: durations (written as quoted strings, formatted by hand), times
 	durs := []time.Duration{0, 1, -1, math.MaxInt64, math.MinInt64, math.MinInt64 + 1, -1000000*time.Hour - 10*time.Minute - 10*time.Second - 1,
 		1000000*time.Hour + 10*time.Minute + 10*time.Second + 1, -time.Hour, 999 * time.Millisecond, -999 * time.Microsecond, 59*time.Minute + 59*time.Second}
@@ -362,6 +364,47 @@ func c06Extra(c *Ctx) {
 	}
 }
 
+type tnodeS struct {
+	V int
+	S []tnodeS
+}
+type tnodeM struct {
+	V int
+	M map[string]tnodeM
+}
+type tnodeA struct {
+	V int
+	A [][1]tnodeA
+}
+type tnodeSM struct {
+	V int
+	S []struct{ M map[string]tnodeSM }
+}
+
+func c06TypedCycles(c *Ctx) {
+	s := tnodeS{V: 1}
+	s.S = make([]tnodeS, 1)
+	s.S[0] = s
+	m := tnodeM{V: 2, M: map[string]tnodeM{}}
+	m.M["k"] = m
+	a := tnodeA{V: 3}
+	a.A = make([][1]tnodeA, 1)
+	a.A[0][0] = a
+	sm := tnodeSM{V: 4}
+	sm.S = make([]struct{ M map[string]tnodeSM }, 1)
+	sm.S[0].M = map[string]tnodeSM{}
+	sm.S[0].M["k"] = sm
+	for i, root := range []any{s, m, a, sm, []tnodeS{s}, map[string]tnodeM{"r": m}, struct{ X tnodeA }{a}} {
+		c.Case()
+		c06Marshal(c, c06Case{Kind: "typed-cycle", Chain: i}, root, true)
+	}
+	// and the same shapes without a cycle
+	for i, root := range []any{tnodeS{V: 1, S: []tnodeS{{V: 2, S: []tnodeS{{V: 3}}}}}, tnodeM{V: 1, M: map[string]tnodeM{"k": {V: 2}}}, tnodeA{V: 1, A: [][1]tnodeA{{{V: 2}}}}} {
+		c.Case()
+		c06Marshal(c, c06Case{Kind: "typed-cycle", Chain: 100 + i}, root, false)
+	}
+}
+
 func c06Replay(c *Ctx, raw stdjson.RawMessage) {
 	var k c06Case
 	if stdjson.Unmarshal(raw, &k) != nil {
@@ -373,7 +416,7 @@ func c06Replay(c *Ctx, raw stdjson.RawMessage) {
 		c06Cycle(c, &cycleVec{Edges: k.Edges, Cyclic: &cy})
 	case k.Kind == "chain" || k.Kind == "struct-chain":
 		c06Chain(c, k.Chain, k.Via, k.Cyclic)
-	case strings.HasPrefix(k.Kind, "deep:"), k.Kind == "duration", k.Kind == "time":
+	case strings.HasPrefix(k.Kind, "deep:"), k.Kind == "duration", k.Kind == "time", k.Kind == "typed-cycle":
 		c06Extra(c)
 	case k.Kind == "doc":
 		c06Decode(c, k, []byte(k.Doc))
